@@ -401,12 +401,20 @@ pub fn c05<T: Fx>(thorough: bool) -> Vec<CellDef> {
 // -------------------------------------------------------------------------------------------------
 
 pub fn c06<T: Fx>(thorough: bool) -> Vec<CellDef> {
+    refs::fdec_selftest(); // the fast decode used by the sqrt acceptance test agrees with the reference decode
     let mut v = vec![];
     for (sfx, sp) in unary_low::<T>(thorough, 0) {
         v.push(CellDef::new("C06", format!("{}/sqrt{}", T::NAME, sfx), sp, |k| {
             let a = k as u32;
+            let got = guard(|| T::fb(a).sqrt().tb() as u128);
+            // fast path: the returned root is proved correct by squaring its two rounding boundaries
+            if let Some(g) = got {
+                if let Some(nt) = refs::sqrt_verify(T::N, T::ES, a, g as u32) {
+                    return Out { ok: true, nt, got: g, want: g, ops: 1, panicked: false };
+                }
+            }
             let (want, nt) = refs::sqrt(T::N, T::ES, a);
-            Out::cmp(guard(|| T::fb(a).sqrt().tb() as u128), want as u128, nt)
+            Out::cmp(got, want as u128, nt)
         }));
     }
     if T::N == 32 && !thorough {
